@@ -126,7 +126,9 @@ func SMAnswer(a Args) error {
 		defer s.shutdown()
 		b := gateMsg(kind, 0)
 		// identifiers and the proxiable bit are patched into the serialised request
-		put32 := func(off int, v uint32) { b[off], b[off+1], b[off+2], b[off+3] = byte(v>>24), byte(v>>16), byte(v>>8), byte(v) }
+		put32 := func(off int, v uint32) {
+			b[off], b[off+1], b[off+2], b[off+3] = byte(v>>24), byte(v>>16), byte(v>>8), byte(v)
+		}
 		put32(12, hbh)
 		put32(16, e2e)
 		if pbit {
